@@ -98,16 +98,19 @@ class C14(Prop):
                   "(add_message, add_vmessage, flush_message, the flush points in get_user_command, process_io and "
                   "remove_interactive) for all message sequences and all scripts of send() results, and about a world of "
                   "several users (routing, driver passes over all users, snoop links, add_message re-entered from a "
-                  "snooper's receive_snoop that writes, destructs users or raises an error): every user's stream of every "
-                  "world run is proved to be a single-user run and to satisfy the specification oracle; the model is tied "
-                  "to the source by regenerated constants / expressions / 33 statement-shape checks and by running the real "
+                  "snooper's receive_snoop that writes, destructs users or raises an error, telnet negotiation replies "
+                  "written by copy_chars while input bytes are decoded, interleaved with text): every user's stream of every "
+                  "world run is proved to be a single-user run and to satisfy the specification oracle; at close only an unsent "
+                  "suffix of the pending bytes is lost and nothing is lost when the socket accepts; the model is tied "
+                  "to the source by regenerated constants / expressions / telnet reply strings / 33 statement-shape checks and by running the real "
                   "comm.c code (real setup_accepted_connection on socketpairs, real epoll runtime, real LPC user objects, "
                   "interposed send()/write()/close(), every add_message call observed through a guarded hook) and the model "
                   "on the same generated histories; the Lean specification oracle judges every implementation trace")
     level_note = ("trusted: Lean kernel; extract.py; the correspondence harness (differential, only the generated "
                   "histories); the socket is an oracle script of send() results; write interest is observed at the "
                   "epoll_ctl() boundary; the snooper's LPC behaviour is a script of reactions (echo / tell / destruct / "
-                  "error / nothing), other LPC behaviour is not modelled; no input traffic")
+                  "error / nothing), other LPC behaviour is not modelled; of the input path only the output calls of "
+                  "copy_chars are mirrored (hand-copied control flow, regenerated constants; framing is C13's)")
     rule = ("cases = corpus + known-finding inputs + boundary list (messages of N-1/N/N+1/3N bytes, LF arriving at "
             "length N-2/N-1/N, partial sends ending at/before/after the wrap point, all-EWOULDBLOCK, EPIPE mid-write, "
             "EINTR, close/peer close/peer FIN with pending data) + seeded random histories of write/vwrite/sendres/"
@@ -126,14 +129,19 @@ class C14(Prop):
     not_covered = ["console reconnect (console_mode option: the reconnect prompt is written after CLOSING is set and is "
                    "therefore never stored - seen by reading, not run) and the console worker thread; the console user's "
                    "output path itself (write(2) branch of flush_message, flush at the end of add_message) is modelled and run",
-                   "telnet negotiation replies written from copy_chars (input driven) interleaved with text: they use the same "
-                   "add_message/flush_message calls (now visible through the add_message hook), but no C14 case sends input "
-                   "bytes; the input-side snoop forwarding of get_user_data is not run either",
+                   "telnet input: the control flow of copy_chars' output side is hand-copied (constants and reply strings are "
+                   "regenerated, behaviour compared on every run); input is not fed in cases that script snooper reactions (a "
+                   "snooper destructing the user inside copy_chars' add_message, or in get_user_data's input-side snoop "
+                   "forwarding, is a use after free of the input code: read, not run - C09/C13); SINGLE_CHAR mode and the "
+                   "terminal_type / window_size / telnet_suboption callbacks are left to C13",
                    "snooper LPC code other than the scripted reactions (echo / tell / destruct / error); a leak of the "
                    "formatted string when the snooper raises an error inside add_vmessage is not observed (leak detection off)",
                    "the lazy creation of users by the case driver happens between world runs; the several-user theorems "
                    "are stated for world runs (they compose: multi_user_stream_ok re-establishes its hypothesis)",
-                   "MSG_OOB flag (telnet AO) of the first send after an abort-output request",
+                   "MSG_OOB flag (telnet AO) of the first send after an abort-output request (the reply bytes are modelled, "
+                   "the flag is not observed)",
+                   "the flush attempt of remove_interactive is a model theorem (PropsClose) and compared, not an oracle clause: "
+                   "the property allows loss at close, so a change that drops it yields no-failing-input-found",
                    "telnet IAC doubling is not done by the code and not claimed",
                    "builds with FLUSH_OUTPUT_IMMEDIATELY",
                    "Windows IOCP runtime (only the Linux epoll runtime is run)"]
